@@ -2,6 +2,8 @@ import Shuttle.Drive.C18
 import Shuttle.Drive.C01
 import Shuttle.Drive.C02
 import Shuttle.Drive.C12
+import Shuttle.Drive.C13
+import Shuttle.Drive.C14
 /-! Line protocol: each input line is `(<prop> <request>)`; one output line per input line. -/
 open Shuttle
 
@@ -11,6 +13,8 @@ def dispatch (line : String) : String :=
   | some (.list [.atom "C01", req]) => Drive.C01.handle req
   | some (.list [.atom "C02", req]) => Drive.C02.handle req
   | some (.list [.atom "C12", req]) => Drive.C12.handle req
+  | some (.list [.atom "C13", req]) => Drive.C13.handle req
+  | some (.list [.atom "C14", req]) => Drive.C14.handle req
   | some _ => "bad-op"
   | none => "bad-parse"
 
